@@ -15,7 +15,9 @@ import fuzzylite as fl
 PID = "C07"
 MODULES = ["FlVerif.Props.C07"]
 NAMESPACE = "C07"
-TIE_A = ["Hedge.", "Setter.activatedDegree", "code:fuzzylite.rule.Consequent.modify"]
+TIE_A = ["Hedge.", "Setter.activatedDegree", "code:fuzzylite.rule.Consequent.modify",
+         "code:fuzzylite.rule.Rule.deactivate", "code:fuzzylite.rule.Rule.activate_with", "code:fuzzylite.rule.Rule.trigger",
+         "code:fuzzylite.rule.Rule.is_loaded"]
 RULE = ("consequents with 1-3 conclusions over the outputs o1..o3 (two terms each), 0-2 hedges per conclusion out of the six "
         "registered ones, every order of the conclusions, with / without `with w`, enabled / disabled rule and variables; degrees: "
         "scalars {0, 1/4, 0.3, 1/2, 3/4, 1, NaN, +-inf, -0.5, 1.5} and batches of 3-4 of them; two paths: Rule.trigger with the "
